@@ -13,52 +13,69 @@ use vh::*;
 // ------------------------------------------------------------------------------------------------ message building
 enum A<'a> {
     Str(&'a str),
+    StrUtf8(&'a str),
+    U64(u64),
     U32(u32),
     U16(u16),
     U8(u8),
+    I64(i64),
     I32(i32),
+    I16(i16),
+    I8(i8),
     Bool(u8),
     Raw(&'a [u8]),
 }
 
-fn verb(args: &[A]) -> (u8, Vec<u8>) {
+/// verbose payload in the given byte order (be = big endian; the message then carries the MSBF flag)
+fn verb_e(args: &[A], be: bool) -> (u8, Vec<u8>) {
     let mut p = Vec::new();
+    let ti = |p: &mut Vec<u8>, t: u32| p.extend_from_slice(&if be { t.to_be_bytes() } else { t.to_le_bytes() });
+    let l16 = |p: &mut Vec<u8>, n: usize| p.extend_from_slice(&if be { (n as u16).to_be_bytes() } else { (n as u16).to_le_bytes() });
+    macro_rules! num {
+        ($p:expr, $t:expr, $v:expr) => {{
+            ti($p, $t);
+            if be {
+                $p.extend_from_slice(&$v.to_be_bytes());
+            } else {
+                $p.extend_from_slice(&$v.to_le_bytes());
+            }
+        }};
+    }
     for a in args {
         match a {
             A::Str(s) => {
-                p.extend_from_slice(&0x0000_0200u32.to_le_bytes());
-                p.extend_from_slice(&((s.len() + 1) as u16).to_le_bytes());
+                ti(&mut p, 0x0000_0200);
+                l16(&mut p, s.len() + 1);
                 p.extend_from_slice(s.as_bytes());
                 p.push(0);
             }
-            A::U32(v) => {
-                p.extend_from_slice(&0x43u32.to_le_bytes());
-                p.extend_from_slice(&v.to_le_bytes());
+            A::StrUtf8(s) => {
+                ti(&mut p, 0x0000_8200);
+                l16(&mut p, s.len() + 1);
+                p.extend_from_slice(s.as_bytes());
+                p.push(0);
             }
-            A::U16(v) => {
-                p.extend_from_slice(&0x42u32.to_le_bytes());
-                p.extend_from_slice(&v.to_le_bytes());
-            }
-            A::U8(v) => {
-                p.extend_from_slice(&0x41u32.to_le_bytes());
-                p.push(*v);
-            }
-            A::I32(v) => {
-                p.extend_from_slice(&0x23u32.to_le_bytes());
-                p.extend_from_slice(&v.to_le_bytes());
-            }
-            A::Bool(v) => {
-                p.extend_from_slice(&0x11u32.to_le_bytes());
-                p.push(*v);
-            }
+            A::U64(v) => num!(&mut p, 0x44, v),
+            A::U32(v) => num!(&mut p, 0x43, v),
+            A::U16(v) => num!(&mut p, 0x42, v),
+            A::U8(v) => num!(&mut p, 0x41, v),
+            A::I64(v) => num!(&mut p, 0x24, v),
+            A::I32(v) => num!(&mut p, 0x23, v),
+            A::I16(v) => num!(&mut p, 0x22, v),
+            A::I8(v) => num!(&mut p, 0x21, v),
+            A::Bool(v) => num!(&mut p, 0x11, v),
             A::Raw(b) => {
-                p.extend_from_slice(&0x0000_0400u32.to_le_bytes());
-                p.extend_from_slice(&(b.len() as u16).to_le_bytes());
+                ti(&mut p, 0x0000_0400);
+                l16(&mut p, b.len());
                 p.extend_from_slice(b);
             }
         }
     }
     (args.len() as u8, p)
+}
+
+fn verb(args: &[A]) -> (u8, Vec<u8>) {
+    verb_e(args, false)
 }
 
 const V_LOG_INFO: u8 = 0x41;
@@ -73,9 +90,14 @@ struct Proto {
     ecu: &'static str,
     ext: Option<(u8, u8, &'static str, &'static str)>, // vmm, noar, apid, ctid
     payload: Vec<u8>,
+    be: bool,          // big endian message (MSBF flag; the payload must have been built big endian)
     tag: &'static str, // coverage label: "<plugin>:<extended header variant>" for traffic matching that plugin
 }
 impl Proto {
+    fn be(mut self) -> Proto {
+        self.be = true;
+        self
+    }
     fn t(mut self, tag: &'static str) -> Proto {
         self.tag = tag;
         self
@@ -83,13 +105,13 @@ impl Proto {
 }
 
 fn proto(ecu: &'static str, vmm: u8, apid: &'static str, ctid: &'static str, np: (u8, Vec<u8>)) -> Proto {
-    Proto { ecu, ext: Some((vmm, np.0, apid, ctid)), payload: np.1, tag: "" }
+    Proto { ecu, ext: Some((vmm, np.0, apid, ctid)), payload: np.1, be: false, tag: "" }
 }
 fn proto_nv(ecu: &'static str, apid: &'static str, ctid: &'static str, payload: Vec<u8>) -> Proto {
-    Proto { ecu, ext: Some((NV_LOG_INFO, 0, apid, ctid)), payload, tag: "" }
+    Proto { ecu, ext: Some((NV_LOG_INFO, 0, apid, ctid)), payload, be: false, tag: "" }
 }
 fn proto_noext(ecu: &'static str, payload: Vec<u8>) -> Proto {
-    Proto { ecu, ext: None, payload, tag: "" }
+    Proto { ecu, ext: None, payload, be: false, tag: "" }
 }
 
 fn finish(protos: Vec<Proto>, rx0: u64) -> (Vec<DltMessage>, Vec<String>) {
@@ -102,7 +124,7 @@ fn finish(protos: Vec<Proto>, rx0: u64) -> (Vec<DltMessage>, Vec<String>) {
             reception_time_us: rx0 + i as u64 * 10_000 + (i as u64 % 7),
             ecu: char4(p.ecu),
             timestamp_dms: 50_000 + i as u32 * 100,
-            standard_header: DltStandardHeader { htyp: 0x20 | 0x10 | if p.ext.is_some() { 0x01 } else { 0 }, mcnt: (i & 0xff) as u8, len: 0 },
+            standard_header: DltStandardHeader { htyp: 0x20 | 0x10 | if p.ext.is_some() { 0x01 } else { 0 } | if p.be { 0x02 } else { 0 }, mcnt: (i & 0xff) as u8, len: 0 },
             extended_header: p.ext.map(|(vmm, noar, apid, ctid)| DltExtendedHeader { verb_mstp_mtin: vmm, noar, apid: char4(apid), ctid: char4(ctid) }),
             payload: p.payload,
             payload_text: None,
@@ -221,24 +243,143 @@ fn mixed_stream(rng: &mut Rng) -> (Vec<DltMessage>, Vec<String>) {
         for (k, (_, ext)) in HV.iter().enumerate() {
             let mut pl = id.to_le_bytes().to_vec();
             pl.extend_from_slice(&rng.bytes(extra));
-            groups.push(vec![Proto { ecu: "Ecu1", ext: *ext, payload: pl, tag: NV_TAGS[k] }]);
+            groups.push(vec![Proto { ecu: "Ecu1", ext: *ext, payload: pl, be: false, tag: NV_TAGS[k] }]);
         }
     }
     for (tag, apid, noar_claim) in [("someip:apid", "SIP", 2u8), ("someip:zero_apid", "", 2), ("someip:other_apid", "XYZ1", 2), ("someip:other_noar", "SIP", 5)] {
         let (_, pl) = verb(&[A::Raw(&ip9), A::Raw(&someip_hdr(64098, 1000, &[3]))]);
-        groups.push(vec![Proto { ecu: "ECU1", ext: Some((V_NW_IPC, noar_claim, apid, "TC")), payload: pl, tag }]);
+        groups.push(vec![Proto { ecu: "ECU1", ext: Some((V_NW_IPC, noar_claim, apid, "TC")), payload: pl, be: false, tag }]);
     }
     for (tag, apid, noar_claim) in [("can:apid", "CAN", 2u8), ("can:zero_apid", "", 2), ("can:other_apid", "XYZ1", 2), ("can:other_noar", "CAN", 4)] {
         let (_, pl) = verb(&[A::U32(0x2ae), A::Raw(&rng.bytes(8))]);
-        groups.push(vec![Proto { ecu: "ECU1", ext: Some((V_NW_CAN, noar_claim, apid, "TC")), payload: pl, tag }]);
+        groups.push(vec![Proto { ecu: "ECU1", ext: Some((V_NW_CAN, noar_claim, apid, "TC")), payload: pl, be: false, tag }]);
     }
     for (tag, vmm, apid) in [("muniic:apid", V_LOG_INFO, "MUN"), ("muniic:zero_apid", V_LOG_INFO, ""), ("muniic:other_apid", V_LOG_INFO, "OTH"), ("muniic:other_type", 0x13u8, "MUN"), ("muniic:other_level", 0x31, "MUN")] {
         let (n, pl) = mu(1228779599, 3478824001, &[1]);
-        groups.push(vec![Proto { ecu: "ECU3", ext: Some((vmm, n, apid, "MMSG")), payload: pl, tag }]);
+        groups.push(vec![Proto { ecu: "ECU3", ext: Some((vmm, n, apid, "MMSG")), payload: pl, be: false, tag }]);
     }
     for (tag, vmm, two) in [("rewrite:info", V_LOG_INFO, false), ("rewrite:warn", 0x31u8, false), ("rewrite:apptrace", 0x13, false), ("rewrite:noar2", V_LOG_INFO, true)] {
         let (n, pl) = if two { verb(&[A::Str("x y 12.25 rewritten"), A::U32(9)]) } else { verb(&[A::Str("x y 12.25 rewritten text")]) };
-        groups.push(vec![Proto { ecu: "ECU1", ext: Some((vmm, n, "SYS", "JOUR")), payload: pl, tag }]);
+        groups.push(vec![Proto { ecu: "ECU1", ext: Some((vmm, n, "SYS", "JOUR")), payload: pl, be: false, tag }]);
+    }
+    // --- paths found by the coverage audit -------------------------------------------------------------------------------
+    // big-endian messages for every plugin that reads numbers from the payload
+    {
+        let be = true;
+        // anonymise: control responses (service id read big endian), non-verbose and verbose payload rewriting
+        let mut sw = 19u32.to_be_bytes().to_vec();
+        sw.push(0);
+        sw.extend_from_slice(&5u32.to_be_bytes());
+        sw.extend_from_slice(b"SW 2\0");
+        groups.push(vec![proto("ECU1", CTRL_RESP, "DA1", "DC1", (0, sw)).be()]);
+        let mut li = 3u32.to_be_bytes().to_vec();
+        li.push(8);
+        groups.push(vec![proto("ECU1", CTRL_RESP, "DA1", "DC1", (0, li)).be()]);
+        groups.push(vec![proto_nv("ECU1", "APP", "CTX", vec![0, 0, 0, 77, 1, 2, 3]).be()]);
+        groups.push(vec![proto("ECU1", V_LOG_INFO, "APP", "CTX", verb_e(&[A::Str("big endian"), A::U32(7), A::I16(-3)], be)).be()]);
+        // non-verbose FIBEX frames with a big-endian message id
+        let mut nvp = 805834673u32.to_be_bytes().to_vec();
+        nvp.extend_from_slice(&rng.bytes(11));
+        groups.push(vec![proto_noext("Ecu1", nvp.clone()).be()]);
+        groups.push(vec![proto_nv("Ecu1", "HLD", "ERR", nvp).be()]);
+        groups.push(vec![proto_noext("Ecu1", 805312382u32.to_be_bytes().to_vec()).be()]);
+        // CAN frame id big endian; CAN control responses (GET_LOG_INFO handling) in all shapes
+        groups.push(vec![proto("ECU1", V_NW_CAN, "CAN", "TC", verb_e(&[A::U32(0x36f), A::Raw(&[1, 2, 3, 4, 5])], be)).be()]);
+        groups.push(vec![proto("ECU1", CTRL_RESP, "CAN", "TC", (0, vec![3, 0]))]);
+        groups.push(vec![proto("ECU1", CTRL_RESP, "CAN", "TC", (0, vec![3, 0, 0, 0]))]);
+        groups.push(vec![proto("ECU1", CTRL_RESP, "CAN", "TC", (0, vec![19, 0, 0, 0, 0, 1]))]);
+        groups.push(vec![proto("ECU1", CTRL_RESP, "CAN", "TC", (0, vec![0, 0, 0, 3, 8])).be()]);
+        groups.push(vec![proto("ECU1", CTRL_RESP, "CAN", "TC", (0, vec![3, 0, 0, 0, 7, 0, 0]))]);
+        // Muniic big endian, ids of the wrong type, configuration messages in all variants
+        let mu_args = |iface: A<'static>, msgid: A<'static>| vec![A::Str("HmiP"), A::U32(5711), A::U32(83029), A::U32(7), A::U32(0), A::Str("InitialData..."), A::Str("[Hmi]"), iface, msgid, A::Str("C/LC:"), A::U8(2), A::U8(0), A::Raw(&[1])];
+        groups.push(vec![proto("ECU4", V_LOG_INFO, "MUN", "MMSG", verb_e(&mu_args(A::U32(1228779599), A::U32(3478824001)), be)).be()]);
+        groups.push(vec![proto("ECU4", V_LOG_INFO, "MUN", "MMSG", verb(&mu_args(A::Str("iface"), A::U32(3478824001))))]);
+        groups.push(vec![proto("ECU4", V_LOG_INFO, "MUN", "MMSG", verb(&mu_args(A::U32(1228779599), A::U16(5))))]);
+        groups.push(vec![
+            proto("ECU5", V_LOG_INFO, "MUN", "MDLT", verb(&[A::Str("Version: 1.0, git: abc, model hash: 2874425776")])),
+            proto("ECU5", V_LOG_INFO, "MUN", "MDLT", verb(&[A::Str("Version: 1.0, git: abc, model hash: 2874425776")])),
+            proto("ECU5", V_LOG_INFO, "MUN", "MDLT", verb(&[A::Str("Version: 1.1, git: abd, model hash: 2874425776")])),
+            proto("ECU5", V_LOG_INFO, "MUN", "MDLT", verb(&[A::Str("Version: 1.1, git: abd, model hash: 2944352002")])),
+            proto("ECU5", V_LOG_INFO, "MUN", "MDLT", verb(&[A::Str("no version information in here")])),
+            proto("ECU5", V_LOG_INFO, "MUN", "MDLT", verb(&[A::U32(5)])),
+            proto("ECU5", V_LOG_INFO, "MUN", "MMSG", verb(&mu_args(A::U32(1228779599), A::U32(3478824001)))),
+        ]);
+        // SOME/IP: other strings / instance id widths / malformed segment arguments
+        let ip10: [u8; 10] = [10, 0, 0, 1, 10, 0, 0, 2, 0, 1];
+        groups.push(vec![proto("ECU1", V_NW_IPC, "SIP", "TC", verb(&[A::Str("ABCD"), A::Raw(&someip_hdr(64098, 1000, &[1]))]))]);
+        groups.push(vec![proto("ECU1", V_NW_IPC, "SIP", "TC", verb(&[A::Raw(&ip10), A::Raw(&someip_hdr(64098, 1000, &[1]))]))]);
+        for hdr in [&ip10[..], &ip12[..], &ip9[0..5]] {
+            groups.push(vec![
+                proto("ECU1", V_NW_IPC, "SIP", "TC", verb(&[A::Str("NWST"), A::Raw(&90u32.to_le_bytes()), A::Raw(hdr), A::U8(0), A::Raw(&1u16.to_le_bytes()), A::Raw(&4u16.to_le_bytes())])),
+                proto("ECU1", V_NW_IPC, "SIP", "TC", verb(&[A::Str("NWCH"), A::Raw(&90u32.to_le_bytes()), A::Raw(&0u16.to_le_bytes()), A::Raw(&[1, 2, 3, 4])])),
+                proto("ECU1", V_NW_IPC, "SIP", "TC", verb(&[A::Str("NWEN"), A::Raw(&90u32.to_le_bytes())])),
+            ]);
+        }
+        groups.push(vec![proto("ECU1", V_NW_IPC, "SIP", "TC", verb(&[A::Str("NWST"), A::Raw(&91u32.to_le_bytes()), A::Raw(&ip9), A::U8(0), A::Raw(&[1]), A::Raw(&4u16.to_le_bytes())]))]);
+        groups.push(vec![proto("ECU1", V_NW_IPC, "SIP", "TC", verb(&[A::Str("NWST"), A::Raw(&92u32.to_le_bytes()), A::Raw(&ip9), A::U8(0), A::Raw(&1u16.to_le_bytes()), A::Raw(&[4])]))]);
+        groups.push(vec![proto("ECU1", V_NW_IPC, "SIP", "TC", verb(&[A::Str("NWCH"), A::Raw(&[1, 2, 3]), A::Raw(&0u16.to_le_bytes()), A::Raw(&[1])]))]);
+        groups.push(vec![proto("ECU1", V_NW_IPC, "SIP", "TC", verb(&[A::Str("NWCH"), A::Raw(&93u32.to_le_bytes()), A::Raw(&[0]), A::Raw(&[1])]))]);
+        groups.push(vec![proto("ECU1", V_NW_IPC, "SIP", "TC", verb(&[A::Str("NWEN"), A::Raw(&[9])]))]);
+        // file transfers: every state of the reassembly and every argument type the plugin accepts or refuses
+        let ft = |args: &[A], be: bool| {
+            let p = proto("ECU1", V_LOG_INFO, "SYS", "FILE", verb_e(args, be));
+            if be { p.be() } else { p }
+        };
+        groups.push(vec![ft(&[A::Str("FLDA"), A::U32(60), A::I32(1), A::Raw(&d2), A::Str("FLDA")], false), ft(&[A::Str("FLFI"), A::U32(60), A::Str("FLFI")], false)]);
+        groups.push(vec![
+            ft(&[A::Str("FLST"), A::U32(61), A::Str("c.bin"), A::U32(6), A::Str("date"), A::U32(2), A::U32(3), A::Str("FLST")], false),
+            ft(&[A::Str("FLDA"), A::U32(61), A::I32(1), A::Raw(&d2), A::Str("FLDA")], false),
+            ft(&[A::Str("FLFI"), A::U32(61), A::Str("FLFI")], false),
+        ]);
+        groups.push(vec![
+            ft(&[A::Str("FLST"), A::U32(62), A::Str("d.bin"), A::U32(3), A::Str("date"), A::U32(1), A::U32(3), A::Str("FLST")], false),
+            ft(&[A::Str("FLDA"), A::U32(62), A::I32(1), A::Raw(&d2), A::Str("FLDA")], false),
+            ft(&[A::Str("FLDA"), A::U32(62), A::I32(2), A::Raw(&d2), A::Str("FLDA")], false),
+            ft(&[A::Str("FLFI"), A::U32(62), A::Str("FLFI")], false),
+        ]);
+        groups.push(vec![
+            ft(&[A::Str("FLST"), A::U32(63), A::Str("e.bin"), A::U32(99), A::Str("date"), A::U32(2), A::U32(3), A::Str("FLST")], false),
+            ft(&[A::Str("FLDA"), A::U32(63), A::I32(2), A::Raw(&d2), A::Str("FLDA")], false),
+            ft(&[A::Str("FLDA"), A::U32(63), A::I32(3), A::Raw(&d2), A::Str("FLDA")], false),
+            ft(&[A::Str("FLDA"), A::U32(63), A::I32(1), A::Raw(&[1]), A::Str("FLDA")], false),
+            ft(&[A::Str("FLFI"), A::U32(63), A::Str("FLFI")], false),
+        ]);
+        groups.push(vec![
+            ft(&[A::Str("FLST"), A::U64(64), A::Str("f.bin"), A::U16(6), A::Str("date"), A::U8(2), A::U64(3), A::Str("FLST")], true),
+            ft(&[A::Str("FLDA"), A::U64(64), A::I64(1), A::Raw(&d2), A::Str("FLDA")], true),
+            ft(&[A::Str("FLDA"), A::U64(64), A::I16(2), A::Raw(&d2), A::Str("FLDA")], true),
+            ft(&[A::Str("FLFI"), A::U64(64), A::Str("FLFI")], true),
+        ]);
+        groups.push(vec![
+            ft(&[A::Str("FLST"), A::U8(65), A::Str("g.bin"), A::U32(6), A::Str("date"), A::U16(2), A::U16(3), A::Str("FLST")], false),
+            ft(&[A::Str("FLDA"), A::U8(65), A::I8(1), A::Raw(&d2), A::Str("FLDA")], false),
+            ft(&[A::Str("FLDA"), A::U8(65), A::I8(-2), A::Raw(&d2), A::Str("FLDA")], false),
+            ft(&[A::Str("FLDA"), A::U8(65), A::I64(-2), A::Raw(&d2), A::Str("FLDA")], false),
+            ft(&[A::Str("FLDA"), A::U8(65), A::I16(-2), A::Raw(&d2), A::Str("FLDA")], true),
+            ft(&[A::Str("FLFI"), A::U8(65), A::Str("FLFI")], false),
+        ]);
+        for bad in 1..=6usize {
+            // one argument of the wrong type per message: serial / size / nr of packages / buffer size / (FLDA) serial / package nr
+            let n = |k: usize, v: u32| if bad == k { A::Str("oops") } else { A::U32(v) };
+            groups.push(vec![ft(&[A::Str("FLST"), n(1, 70 + bad as u32), A::Str("h.bin"), n(2, 6), A::Str("date"), n(3, 2), n(4, 3), A::Str("FLST")], false)]);
+            groups.push(vec![ft(&[A::Str("FLDA"), n(5, 70 + bad as u32), if bad == 6 { A::Str("oops") } else { A::I32(1) }, A::Raw(&d2), A::Str("FLDA")], false)]);
+        }
+        groups.push(vec![
+            ft(&[A::Str("FLST"), A::U32(66), A::StrUtf8("i.bin"), A::U32(6), A::StrUtf8("date"), A::U32(2), A::U32(3), A::Str("FLST")], true),
+            ft(&[A::Str("FLDA"), A::U32(66), A::I32(1), A::Raw(&d2), A::Str("FLDA")], true),
+            ft(&[A::Str("FLDA"), A::U32(66), A::I32(1), A::Raw(&d2), A::Str("FLDA")], true), // duplicate package
+            ft(&[A::Str("FLDA"), A::U32(66), A::I32(2), A::Raw(&d2), A::Str("FLDA")], true),
+            ft(&[A::Str("FLFI"), A::U32(66), A::Str("FLFI")], true),
+        ]);
+        groups.push(vec![
+            ft(&[A::Str("FLST"), A::U64(67), A::Str("j.bin"), A::U32(6), A::Str("date"), A::U32(2), A::U32(3), A::Str("FLST")], false),
+            ft(&[A::Str("FLDA"), A::U64(67), A::I16(1), A::Raw(&d2), A::Str("FLDA")], false),
+            ft(&[A::Str("FLDA"), A::U64(67), A::I16(2), A::Raw(&d2), A::Str("FLDA")], false),
+            ft(&[A::Str("FLFI"), A::U64(67), A::Str("FLFI")], false),
+        ]);
+        groups.push(vec![ft(&[A::Str("FLFI"), A::Str("oops"), A::Str("FLFI")], false)]);
+        groups.push(vec![ft(&[A::Str("FLST"), A::U32(80), A::Raw(&[0xff, 0xfe]), A::U32(6), A::Raw(&[1]), A::U32(2), A::U32(3), A::Str("FLST")], false)]);
+        groups.push(vec![ft(&[A::Str("FLST"), A::U32(81), A::Str("a.bin"), A::U32(0), A::Str("date"), A::U32(0), A::U32(0), A::Str("FLST")], false)]);
     }
     // --- control messages
     groups.push(vec![proto("ECU1", CTRL_REQ, "DA1", "DC1", (0, vec![19, 0, 0, 0]))]);
@@ -262,7 +403,7 @@ fn mixed_stream(rng: &mut Rng) -> (Vec<DltMessage>, Vec<String>) {
         if rng.chance(1, 4) {
             groups.push(vec![proto_noext("ECU2", pl)]);
         } else {
-            groups.push(vec![Proto { ecu: "ECU2", ext: Some((vmm, noar, *rng.pick(&["ARB", "SYS", "CAN"]), *rng.pick(&["TC", "JOUR", "MMSG", "FILE"]))), payload: pl, tag: "" }]);
+            groups.push(vec![Proto { ecu: "ECU2", ext: Some((vmm, noar, *rng.pick(&["ARB", "SYS", "CAN"]), *rng.pick(&["TC", "JOUR", "MMSG", "FILE"]))), payload: pl, be: false, tag: "" }]);
         }
     }
     // --- id populations
@@ -531,7 +672,7 @@ fn in_event(pos: usize, m: &DltMessage, tag: &str) -> Value {
     // the file transfer plugin is decided by TLC from hdr.ft)
     let fshape = m.is_verbose() && m.verb_mstp_mtin().map(|v| v >> 1 == (4 << 3)).unwrap_or(false) && m.noar() == 5 && FileTransferPlugin::is_type(m, "FLDA");
     let a0 = m.into_iter().next().map(|a| a.payload_raw.len() as i64).unwrap_or(-1);
-    json!({"ev":"in","pos":pos,"vec":vec_of(m),"fshape":fshape,"cr":m.is_ctrl_response(),"a0":a0,"tag":tag})
+    json!({"ev":"in","pos":pos,"vec":vec_of(m),"fshape":fshape,"cr":m.is_ctrl_response(),"a0":a0,"tag":tag,"be":m.is_big_endian()})
 }
 
 // ------------------------------------------------------------------------------------------------ plugins
@@ -540,6 +681,7 @@ fn in_event(pos: usize, m: &DltMessage, tag: &str) -> Value {
 struct FtCfg {
     apid: Option<&'static str>,
     ctid: Option<&'static str>,
+    save: String, // no | mem (allowSave: the data is kept in memory) | auto (autoSavePath / autoSaveGlob below the work dir)
 }
 impl FtCfg {
     fn from_plan(e: &Value) -> FtCfg {
@@ -548,10 +690,10 @@ impl FtCfg {
             "other" => Some(o),
             _ => Some(m),
         };
-        FtCfg { apid: pick(&e["ft"]["apid"], "SYS", "APP"), ctid: pick(&e["ft"]["ctid"], "FILE", "FIL2") }
+        FtCfg { apid: pick(&e["ft"]["apid"], "SYS", "APP"), ctid: pick(&e["ft"]["ctid"], "FILE", "FIL2"), save: e["ft"]["save"].as_str().unwrap_or("no").to_string() }
     }
     fn hdr(&self) -> Value {
-        json!({"apid": self.apid.map(|a| idstr(&char4(a))).unwrap_or_default(), "ctid": self.ctid.map(|a| idstr(&char4(a))).unwrap_or_default()})
+        json!({"apid": self.apid.map(|a| idstr(&char4(a))).unwrap_or_default(), "ctid": self.ctid.map(|a| idstr(&char4(a))).unwrap_or_default(), "save": self.save})
     }
 }
 fn mk_plugins(chain: &[String], ft: &FtCfg, tests: &str, work: &str, case: u64) -> Result<Vec<Box<dyn Plugin + Send>>, String> {
@@ -565,7 +707,11 @@ fn mk_plugins(chain: &[String], ft: &FtCfg, tests: &str, work: &str, case: u64) 
             "muniic" => json!({"name":"Muniic","jsonDir":format!("{}/muniic", tests)}),
             "rewrite" => serde_json::from_str(&std::fs::read_to_string(format!("{}/rewrite.cfg", tests)).map_err(|e| e.to_string())?).map_err(|e| e.to_string())?,
             "ft_keep" | "ft_drop" => {
-                let mut c = json!({"name":"FileTransfer","allowSave":false,"keepFLDA":k == "ft_keep"});
+                let mut c = json!({"name":"FileTransfer","allowSave":ft.save == "mem","keepFLDA":k == "ft_keep"});
+                if ft.save == "auto" {
+                    c["autoSavePath"] = json!(format!("{}/ftsave-{}", work, case));
+                    c["autoSaveGlob"] = json!("*.bin");
+                }
                 if let Some(a) = ft.apid {
                     c["apid"] = json!(a);
                 }
@@ -717,7 +863,7 @@ fn main() {
             "file" => (file_stream(e["file"].as_str().unwrap(), e["n"].as_u64().unwrap() as usize), vec![]),
             other => panic!("unknown stream {}", other),
         };
-        let ft = if chain.iter().any(|k| k.starts_with("ft_")) { FtCfg::from_plan(e) } else { FtCfg { apid: None, ctid: None } };
+        let ft = if chain.iter().any(|k| k.starts_with("ft_")) { FtCfg::from_plan(e) } else { FtCfg { apid: None, ctid: None, save: "no".to_string() } };
         let plugins = match mk_plugins(&chain, &ft, &tests, &work, case) {
             Ok(p) => p,
             Err(err) => {
@@ -745,6 +891,7 @@ fn main() {
         }
         t.ev(json!({"ev":"end"}));
         let _ = std::fs::remove_file(format!("{}/export-{}.dlt", work, case));
+        let _ = std::fs::remove_dir_all(format!("{}/ftsave-{}", work, case));
     }
     t.flush();
     println!("{}", json!({"cases": ncases, "lines": t.lines, "tool_errors": tool_errors, "lc_skipped": lc_skipped}));
